@@ -514,6 +514,12 @@ func (e *escaper) escapeList(c context, n *parse.ListNode) context {
 	}
 	for _, m := range n.Nodes {
 		c = e.escape(c, m)
+		if c.state == stateError {
+			// Nothing more is learnt from the rest of the list, and analysing the
+			// templates it calls in an error context costs time that doubles with
+			// every level of the call chain.
+			break
+		}
 	}
 	return c
 }
